@@ -62,7 +62,7 @@ NOTES = {
     "C06-m8": "NOT counted for C06: the Diff value is untouched, only DiffElement.Render writes the context line wrongly (a per cent sign in it); that is C02's subject and C02 reports it (quick, 14 violations)",
     "C07-m7": "missed by the first version of the check (SET and MULTISET were never given together); caught after the option sets set+mset / mset+set were added to C01, C04, C05, C07, C14, C17",
     "C07-m8": "NOT counted: the property quantifies over {list, SET, MULTISET, SetKeys, MERGE}; under Precision(eps) the unchanged tree already emits hunks for numbers that are Equal within eps, so no check of C07 can be stated there",
-    "C08-m8": "missed by the first version of the check (key values were never null, and no look-alike member stood in front of the addressed one); caught after explicit null key values and the perturbations 'look-alike with one key different / lacking one key in front of the addressed member' were added",
+    "C08-m8": "(re-made by hand on the current tree after repair D39 touched the same lines) missed by the first version of the check (key values were never null, and no look-alike member stood in front of the addressed one); caught after explicit null key values and the perturbations 'look-alike with one key different / lacking one key in front of the addressed member' were added",
     "C09-m7": "NOT counted for C09 (no input shows it, only concurrent calls); it is a purity defect and C15 reports it since the determinism leg also calls Diff / Render* from 8 goroutines at once (quick, 4 violations)",
     "C09-m8": "missed by the first version of the check (documents always came from a reader); caught after the C09 'patched' leg was added (a' = Patch(A, A.Diff(X)) with arrays emptied, diffed against B and translated)",
     "C10-m8": "NOT counted: the triggering file is not a JSON Patch document (text after the closing bracket), which is outside the statement's quantifier; the unchanged tree likewise reads the text null as the empty patch. The file entry points are now exercised by the C10 / C12 'file' legs on documents",
@@ -95,6 +95,22 @@ NOTES = {
     "C16-m9": "missed by the first version of the check; caught after every document is also read from decorated YAML (document start / end markers, directive, comment lines, trailing comment)",
     "C17-m9": "missed by the first version of the check; caught after gen.SpellingTwins (one array holding several spellings of the same nested container, b keeping fewer) was added",
     "C17-m10": "missed by the first version of the check; caught after set+merge and mset+merge were added to the v1 option sets (spelling twins reach it)",
+    "C01-m11": "missed by the first version of the check; caught after copies of a keyed member may spell the arrays inside their key values in another member order (gen.RespellKeyValues; key values can now be two-element arrays)",
+    "C01-m12": "missed by the first version of the check; caught after gen.BracketTwins (the same scalars in the same order, a nested list closing at another place) was added to the hash-shape pairs, which the shared pair generator now also draws",
+    "C06-m11": "missed by the first version of the check; caught by the bracket twins placed face to face in otherwise equal lists",
+    "C06-m12": "missed by the first version of the check; caught after objects whose values are exchanged between the keys were placed face to face in otherwise equal lists (C01/C05 had value exchanges before)",
+    "C09-m11": "missed by the first version of the check (every call got a freshly made diff); caught after C09 renders the diff first and then applies the same value natively, comparing with a freshly made diff; C15 catches it too",
+    "C09-m12": "as C09-m11",
+    "C11-m11": "missed by the first version of the check; caught after the edit 'negate a number' was added to gen.Edit",
+    "C13-m12": "missed by the first version of the check; caught after keyed hunks on targets holding several members with the addressed key value (copies and look-alikes, the rest of the hunk fitting some of them), followed by a second hunk on the same array, were added to the structure leg",
+    "C14-m11": "caught at seeds 2 and 3, missed at seed 1 by the first version of the check; -setkeys now has twice the weight among the option sets of C14",
+    "C14-m12": "NOT counted: needs -precision together with -setkeys; on that combination the unchanged tree is itself incoherent (members differing within eps are not Equal while the diff is empty, see the observations in DESIGN.md), so no oracle of C14 can be stated there",
+    "C15-m11": "missed by the first version of the check; caught after -set -mset was added to the option sets of the fresh-process leg",
+    "C15-m12": "missed by the first version of the check (no Precision in the history leg, option list not observed); caught after histories under Precision(eps) on documents with differences below and above eps were added and the option list is compared with a fresh one after every call",
+    "C16-m11": "missed by the first version of the check; caught after strings ending in a backslash and strings holding //, /* */ were added to the C16 pool and the payload pool",
+    "C16-m12": "missed by the first version of the check (the diff file was always called d.jd); caught after the name of the diff file varies with the case (d.jd, d.json, d, d.txt, d.yaml, d.yml)",
+    "C08-m7": "the delivered patch no longer applied after repair D39 touched the same lines; re-made by hand on the current tree. Caught",
+    "C08-m9": "the delivered patch no longer applied after repair D39; re-made by hand on the current tree. Caught",
     "C14-m2": "missed by the first version of the check (stdin was always a pipe); caught after a run with stdin redirected from a regular file was added",
 }
 
